@@ -1877,6 +1877,122 @@ fn decoder_probe(rep: &mut Report) {
 // exhaustive exploration, and it can only alarm when VRPs really stayed behind.
 // ---------------------------------------------------------------------------
 
+// ---------------------------------------------------------------------------
+// Two caches reachable at ONE IP address (different ports): they are different sources.
+// Both announce the same VRP; while either of them still announces it, it stays installed.
+// ---------------------------------------------------------------------------
+
+fn same_address_caches(rep: &mut Report) {
+    use tokio::io::{AsyncReadExt, AsyncWriteExt};
+    let rt = match tokio::runtime::Builder::new_current_thread().enable_all().build() {
+        Ok(r) => r,
+        Err(e) => {
+            rep.machinery_error = Some(format!("runtime: {e}"));
+            return;
+        }
+    };
+    // (which cache finishes its snapshot first, which one takes the VRP back, how)
+    for first in [0usize, 1] {
+        for leaver in [0usize, 1] {
+            for withdraw in [false, true] {
+                let case = format!("same-address#first={}#leaver={}#{}", ["A", "B"][first], ["A", "B"][leaver], if withdraw { "withdraw" } else { "session-end" });
+                let r: Result<Option<String>, String> = rt.block_on(async {
+                    let tables: TableHandle = Arc::new(crate::table_manager::TableManager::new(1));
+                    let ip: IpAddr = "192.0.2.77".parse().unwrap();
+                    let mut ends: Vec<Option<DuplexStream>> = Vec::new();
+                    let mut states = Vec::new();
+                    let mut tasks = Vec::new();
+                    for _ in 0..2 {
+                        let (ours, theirs) = tokio::io::duplex(1 << 16);
+                        let st = Arc::new(RpkiState::default());
+                        let lines = Framed::new(theirs, rpki::RtrCodec::new());
+                        let h = tokio::spawn(RpkiClient::serve_inner(lines, Arc::new(ip), tokio_util::sync::CancellationToken::new(), Arc::new(tokio::sync::Notify::new()), st.clone(), tables.clone()));
+                        ends.push(Some(ours));
+                        states.push(st);
+                        tasks.push(Some(h));
+                    }
+                    let installed = |t: &TableHandle| t.collect_roa(packet::Family::IPV4).len();
+                    let wait_eod = |st: Arc<RpkiState>, n: i64| async move {
+                        let t0 = std::time::Instant::now();
+                        while st.end_of_data.load(Ordering::SeqCst) < n {
+                            if t0.elapsed() > std::time::Duration::from_secs(10) {
+                                return Err("End of Data was not processed".to_string());
+                            }
+                            tokio::time::sleep(std::time::Duration::from_micros(200)).await;
+                        }
+                        Ok(())
+                    };
+                    for i in [first, 1 - first] {
+                        let e = ends[i].as_mut().unwrap();
+                        let mut q = [0u8; 8];
+                        e.read_exact(&mut q).await.map_err(|e| format!("reset query: {e}"))?;
+                        let mut out = Vec::new();
+                        encode(&Pdu::CacheResponse, 1, 7 + i as u16, &mut out);
+                        encode(&Pdu::Prefix(0, true), 1, 7 + i as u16, &mut out);
+                        encode(&Pdu::EndOfData(1), 1, 7 + i as u16, &mut out);
+                        e.write_all(&out).await.map_err(|e| e.to_string())?;
+                        wait_eod(states[i].clone(), 1).await?;
+                    }
+                    if installed(&tables) == 0 {
+                        return Ok(Some("vrp-lost/after-both-snapshots: both caches announced the VRP, none is installed".into()));
+                    }
+                    // one cache takes it back
+                    if withdraw {
+                        let e = ends[leaver].as_mut().unwrap();
+                        let mut out = Vec::new();
+                        encode(&Pdu::SerialNotify(2), 1, 7 + leaver as u16, &mut out);
+                        e.write_all(&out).await.map_err(|e| e.to_string())?;
+                        let mut q = [0u8; 12];
+                        tokio::time::timeout(std::time::Duration::from_secs(10), e.read_exact(&mut q)).await.map_err(|_| "no Serial Query".to_string())?.map_err(|e| e.to_string())?;
+                        let mut out = Vec::new();
+                        encode(&Pdu::CacheResponse, 1, 7 + leaver as u16, &mut out);
+                        encode(&Pdu::Prefix(0, false), 1, 7 + leaver as u16, &mut out);
+                        encode(&Pdu::EndOfData(2), 1, 7 + leaver as u16, &mut out);
+                        e.write_all(&out).await.map_err(|e| e.to_string())?;
+                        wait_eod(states[leaver].clone(), 2).await?;
+                    } else {
+                        ends[leaver] = None;
+                        if let Some(h) = tasks[leaver].take() {
+                            let _ = tokio::time::timeout(std::time::Duration::from_secs(10), h).await.map_err(|_| "the client task did not end at end of stream".to_string())?;
+                        }
+                    }
+                    if installed(&tables) == 0 {
+                        return Ok(Some(format!("vrp-lost/{}: cache {} took the VRP back, cache {} still announces it, yet it is no longer installed", if withdraw { "other-cache-withdrew" } else { "other-cache-session-ended" }, ["A", "B"][leaver], ["A", "B"][1 - leaver])));
+                    }
+                    // the other one goes too
+                    ends[1 - leaver] = None;
+                    if let Some(h) = tasks[1 - leaver].take() {
+                        let _ = tokio::time::timeout(std::time::Duration::from_secs(10), h).await.map_err(|_| "the client task did not end at end of stream".to_string())?;
+                    }
+                    if withdraw {
+                        ends[leaver] = None;
+                        if let Some(h) = tasks[leaver].take() {
+                            let _ = tokio::time::timeout(std::time::Duration::from_secs(10), h).await;
+                        }
+                    }
+                    if installed(&tables) != 0 {
+                        return Ok(Some("left-behind: both sessions have ended, the VRP is still installed".into()));
+                    }
+                    Ok(None)
+                });
+                rep.evaluations += 1;
+                match r {
+                    Err(e) => {
+                        rep.machinery_error = Some(format!("c13 same-address caches ({case}): {e}"));
+                        return;
+                    }
+                    Ok(None) => {}
+                    Ok(Some(msg)) => {
+                        let clause = msg.split(':').next().unwrap_or("").to_string();
+                        rep.violation(Violation { sig: format!("C13/isolation/same-address/{clause}"), what: format!("two caches at one IP address ({case}): {msg}"), case });
+                    }
+                }
+            }
+        }
+    }
+    rep.notes.push("c13-same-address: two caches at one IP address announcing an identical VRP; 8 orders of snapshot completion x who takes it back x (incremental withdrawal | session end)".into());
+}
+
 fn operator_cancel_once() -> Result<usize, String> {
     use tokio::io::{AsyncReadExt, AsyncWriteExt};
     let rt = tokio::runtime::Builder::new_current_thread().enable_all().build().map_err(|e| e.to_string())?;
@@ -1949,6 +2065,10 @@ pub(crate) fn run_c13(replay: Option<&str>) -> Report {
     let mut rep = Report::new("C13", "hd-c13");
     report::quiet_panics();
     start_watchdog();
+    if replay.is_some_and(|c| c.starts_with("same-address#")) {
+        same_address_caches(&mut rep);
+        return rep;
+    }
     if replay == Some("operator-cancel") {
         operator_cancel(&mut rep, 200);
         return rep;
@@ -1977,6 +2097,7 @@ pub(crate) fn run_c13(replay: Option<&str>) -> Report {
 
     decoder_probe(&mut rep);
     operator_cancel(&mut rep, if thorough { 200 } else { 40 });
+    same_address_caches(&mut rep);
 
     if !thorough {
         // full product delivery x fault for one round, sum for two rounds
